@@ -36,7 +36,7 @@
 (*    is acceptable, an old interval or an old limit is not).              *)
 (* Used by Throttle (model level) and Throttle_Trace (real executions).    *)
 (***************************************************************************)
-EXTENDS Integers, FiniteSets
+EXTENDS Integers, FiniteSets, Sequences
 
 CeilDiv(a, d) == (a + d - 1) \div d          \* a >= 0, d > 0
 \* ceil(b * si * td / tn) without leaving 32-bit integers as long as the result fits (si = q * tn + rem)
@@ -74,4 +74,88 @@ Justified(r, rs, tol) ==
     \/ Big(r)
     \/ \E a \in Paced(rs) : a.inv < r.ret /\ PassT(a) + Iv(r) + tol - r.arr > r.mq
 NoSpuriousReject(rs, tol) == \A r \in rs : r.res = "reject" => Justified(r, rs, tol)
+
+(***************************************************************************)
+(* SEVERAL THROTTLING RULES ON ONE RESOURCE.  The flow slot checks the     *)
+(* rules of a resource IN LIST ORDER and makes the request sleep right     *)
+(* after every rule that asks it to wait, so a request reaches rule j at   *)
+(* its arrival time plus the waits of the rules before j; it passes the    *)
+(* resource at  arrival + SUM of the waits.  The first rule that rejects   *)
+(* ends the walk: no later rule is consulted (none consumes a slot).       *)
+(* The clauses of C10 hold PER RULE, with that rule's own parameters and   *)
+(* the instants at which the requests reached THAT rule:                   *)
+(*   Spacing      between the requests the rule admitted,                  *)
+(*   BoundedWait  by the rule's own queueing limit,                        *)
+(*   a rejection is justified by the rule that rejected, at the instant    *)
+(*   the request reached it - and every rule in front of it could honour   *)
+(*   its spacing within its limit (it is the FIRST one that cannot).       *)
+(* A rule here is [si, mq, tn, td]; the observable of a request is         *)
+(*   q = [id, arr, b, res, w, by, inv, ret]                                *)
+(* w = the TOTAL time it was made to sleep (before passing, or before it   *)
+(* was rejected), by = index of the rule named by the rejection (0: the    *)
+(* rejection names no rule - the library names none when the batch exceeds *)
+(* the threshold; the rejecting rule is then the first such rule).         *)
+(* The per-rule instants are not observable; the spec ATTRIBUTES the total *)
+(* wait to the rules in list order (Attribute):                            *)
+(*  * admitted request: each rule in turn is attributed the least wait     *)
+(*    that keeps ITS spacing at the instant the request reaches it, as far *)
+(*    as the total goes; the last rule takes what remains.  (A total that  *)
+(*    is too short therefore breaks Spacing at the first rule it does not  *)
+(*    cover, and every later rule is reached correspondingly early; a      *)
+(*    surplus is judged against the limit of the last rule.)               *)
+(*  * rejected request: every rule in front of the rejecting one admitted  *)
+(*    it and holds a reservation for it - the least wait at the instant it *)
+(*    reaches that rule when it honours these waits (whether the caller is *)
+(*    really delayed before it is turned away is not a clause of C10; the  *)
+(*    library does delay it).  The rejection is judged at arr + w, the     *)
+(*    instant the request really got to the rejecting rule.  Rules behind  *)
+(*    the rejecting one get no record: a slot they consumed would show as  *)
+(*    an unjustified rejection later on.                                   *)
+(* For a list of one rule this is the single-rule judgement above.         *)
+(***************************************************************************)
+SetMax(S)   == CHOOSE x \in S : \A y \in S : y <= x
+MinOf(a, b) == IF a <= b THEN a ELSE b
+\* request q at rule R: reached at instant t, made to wait w there, outcome res
+AtRule(q, R, t, w, res) ==
+    [id |-> q.id, arr |-> t, b |-> q.b, tn |-> R.tn, td |-> R.td, si |-> R.si, mq |-> R.mq, g |-> 0,
+     res |-> res, w |-> w, inv |-> q.inv, ret |-> q.ret]
+\* the least wait with which p (a request at a rule, w = 0) keeps the spacing behind everything the rule admitted (rs)
+LeastWait(p, rs) ==
+    IF Iv(p) = 0 THEN 0 ELSE SetMax({0} \cup { PassT(a) + Iv(p) - p.arr : a \in Paced(rs) })
+FirstBig(q, Rules) ==
+    LET S == { j \in 1..Len(Rules) : Big(AtRule(q, Rules[j], 0, 0, "reject")) }
+    IN IF S = {} THEN 0 ELSE CHOOSE j \in S : \A i \in S : j <= i
+\* the rule that rejected q (0: q was admitted, or its rejection cannot be attributed to any rule)
+RejBy(q, Rules) ==
+    IF q.res # "reject" THEN 0
+    ELSE IF q.by \in 1..Len(Rules) THEN q.by ELSE FirstBig(q, Rules)
+
+\* recs[j] = records of rule j so far; returns them extended by request q (walk from rule j, reached at t, rem = wait
+\* not yet attributed).  Start with Attribute(Rules, recs, q, 1, q.arr, q.w).
+RECURSIVE Attribute(_, _, _, _, _, _)
+Attribute(Rules, recs, q, j, t, rem) ==
+    IF j > Len(Rules) \/ (q.res = "reject" /\ RejBy(q, Rules) = 0) THEN recs
+    ELSE LET R  == Rules[j]
+             lo == LeastWait(AtRule(q, R, t, 0, "pass"), recs[j])
+         IN IF q.res = "reject"
+            THEN IF j = RejBy(q, Rules)
+                 THEN [recs EXCEPT ![j] = @ \cup {AtRule(q, R, q.arr + q.w, 0, "reject")}]
+                 ELSE Attribute(Rules, [recs EXCEPT ![j] = @ \cup {AtRule(q, R, t, lo, "pass")}], q, j + 1, t + lo, rem)
+            ELSE LET w == IF j = Len(Rules) THEN rem ELSE MinOf(rem, lo)
+                 IN Attribute(Rules, [recs EXCEPT ![j] = @ \cup {AtRule(q, R, t, w, "pass")}], q, j + 1, t + w, rem - w)
+
+RECURSIVE SumMq(_, _)
+SumMq(Rules, k) == IF k <= 0 THEN 0 ELSE Rules[k].mq + SumMq(Rules, k - 1)
+
+\* the clauses per rule.  tol = slack per rule in front (float rounding of a spacing in the real code moves the instant
+\* a later rule is reached by that much); 0 at model level, and no slack at all for the first rule
+ListSpacing(recs)          == \A j \in DOMAIN recs : Spacing(recs[j])
+ListBoundedWait(recs, tol) == \A j \in DOMAIN recs : \A r \in Admitted(recs[j]) : r.w >= 0 /\ r.w <= r.mq + (j - 1) * tol
+ListNoSpurious(recs, tol)  == \A j \in DOMAIN recs : NoSpuriousReject(recs[j], j * tol)
+\* request level: a rejection comes from a rule of the list, and a rejected request was not made to sleep longer than the
+\* rules in front of the rejecting one may queue it
+ListRejectOK(qs, Rules, tol) ==
+    \A q \in qs : q.res = "reject" =>
+        /\ RejBy(q, Rules) > 0
+        /\ q.w >= 0 /\ q.w <= SumMq(Rules, RejBy(q, Rules) - 1) + RejBy(q, Rules) * tol
 =============================================================================
